@@ -17,6 +17,8 @@ open Nima.C15
 #print axioms tie_registry
 #print axioms non_interference
 #print axioms serial_run_valid
+#print axioms balanced_restores
+#print axioms balanced_no_ctx_err
 #print axioms cex_shared_parser
 #print axioms cex_shared_bytes
 #print axioms cex_shared_path
